@@ -72,6 +72,7 @@ func renderListing(funcs []function, i386 bool, table map[int]string, r *rand.Ra
 	var b strings.Builder
 	var exp []expected
 	addr := 0x401000
+	stick, stickLine := 0, 0
 	line := func(fn int, asm string) {
 		addr += 3
 		loc := fmt.Sprintf("file%d.go", fn)
@@ -81,7 +82,15 @@ func renderListing(funcs []function, i386 bool, table map[int]string, r *rand.Ra
 			target := []int{4096, 4096, 8192, 12288, 16384, 32768, 20000, 50000}[r.Intn(8)] - 70 + r.Intn(90)
 			loc = "/src/" + strings.Repeat("very-long-directory-name/", target/25+1)[:target] + loc
 		}
-		fmt.Fprintf(&b, "  %s:%d\t\t0x%x\t\t%x\t\t%s\t\n", loc, 10+addr%90, addr, uint64(addr)*2654435761&0xffffffffff, asm)
+		ln := 10 + addr%90
+		if stick == 0 && r.Intn(80) == 0 {
+			stick, stickLine = 3+r.Intn(14), 1+r.Intn(30) // inlined code: the next lines all carry one source position
+		}
+		if stick > 0 {
+			stick--
+			loc, ln = "inlined_helper.go", stickLine
+		}
+		fmt.Fprintf(&b, "  %s:%d\t\t0x%x\t\t%x\t\t%s\t\n", loc, ln, addr, uint64(addr)*2654435761&0xffffffffff, asm)
 	}
 	trap := func() string {
 		if i386 {
